@@ -10,7 +10,8 @@ from ptyproc import key, mouse_sgr
 import pbt
 
 PID = "C18"
-RXS = [(52.0, 4.0), (-33.9, 151.2), (70.0, -20.0), (40.0, -100.0), (1.0, 103.0), (10.0, 179.7), (51.5, 0.3), (-0.2, -0.3), (-45.0, -179.8)]
+RXS = [(52.0, 4.0), (-33.9, 151.2), (70.0, -20.0), (40.0, -100.0), (1.0, 103.0), (10.0, 179.7), (51.5, 0.3), (-0.2, -0.3), (-45.0, -179.8),
+       (85.5, -40.0), (-86.0, 60.0)]  # appended: beyond the web-mercator latitude limit (indices of saved cases stay valid)
 ADDRS = [0x4840D6, 0xABC001, 0x3C6586, 0x000A0B, 0xFFFFFE, 0x7C0017, 0x06A0B1, 0x800001]
 ROWS, COLS = 50, 160
 WIDTHS = [6, 9, 7, 7, 7, 8, 6, 5, 8, 6]
@@ -798,7 +799,16 @@ def main():
         + [{"rx": rxi, "aircraft": [{"bearing": 270.0, "km": 145.0, "callsign": "FAR2", "position": True, "alt": 300, "climb": 0, "velocity": None, "extra": 0, "df18": False, "first_other": 0},
                                     {"bearing": 40.0, "km": 20.0, "callsign": "NEAR1", "position": True, "alt": 200, "climb": 0, "velocity": None, "extra": 0, "df18": False, "first_other": 0},
                                     {"bearing": 135.0, "km": 100.0, "callsign": None, "position": True, "alt": 100, "climb": 0, "velocity": None, "extra": 0, "df18": False, "first_other": 0}],
-            "labels": False, "scale": None, "view": [], "post_view": False, "gpsd": None, "goto": {"row": row, "zoom": z}} for (rxi, row, z) in ((3, 0, 8), (3, 1, 12), (0, 2, 8), (6, 0, 12))],
+            "labels": False, "scale": None, "view": [], "post_view": False, "gpsd": None, "goto": {"row": row, "zoom": z}} for (rxi, row, z) in ((3, 0, 8), (3, 1, 12), (0, 2, 8), (6, 0, 12))]
+        # ... with an aircraft that has no position sorting first in the table (rows and positions are different lists)
+        + [{"rx": 3, "aircraft": [{"bearing": 270.0, "km": 145.0, "callsign": "FAR2", "position": True, "alt": 300, "climb": 0, "velocity": None, "extra": 0, "df18": False, "first_other": 0},
+                                  {"bearing": 40.0, "km": 20.0, "callsign": "NEAR1", "position": True, "alt": 200, "climb": 0, "velocity": None, "extra": 0, "df18": False, "first_other": 0},
+                                  {"bearing": 135.0, "km": 100.0, "callsign": None, "position": True, "alt": 100, "climb": 0, "velocity": None, "extra": 0, "df18": False, "first_other": 0},
+                                  {"bearing": 0.0, "km": 50.0, "callsign": "NOPOS", "position": False, "alt": 100, "climb": 0, "velocity": None, "extra": 1, "df18": False, "first_other": 0}],
+            "labels": False, "scale": None, "view": [], "post_view": False, "gpsd": None, "goto": {"row": row, "zoom": 3}} for row in (1, 2, 3)]
+        # four aircraft 12 km out, one per quadrant, around receivers beyond 85 degrees of latitude
+        + [{"rx": rxi, "aircraft": [{"bearing": b, "km": 12.0, "callsign": None, "position": True, "alt": 100 + i, "climb": 0, "velocity": None, "extra": 0, "df18": False, "first_other": 0} for i, b in enumerate((20.0, 110.0, 200.0, 290.0))],
+            "labels": False, "scale": None, "view": [], "post_view": False, "gpsd": None, "goto": None} for rxi in (9, 10)],
     )
     sys.exit(rc)
 
